@@ -7,13 +7,16 @@ import parser_oracle as po
 import text_streams as ts
 
 ID = 'C13'
-LEAN_MODULE = 'Proofs.C13'
+LEAN_MODULE = 'Proofs.Pipeline'   # imports Proofs.C13 (M2) and the M3 rejection lemmas: the composed theorem needs both
+LEANCHECK_MODULES = ['Proofs.C13', 'Proofs.Pipeline']
 THEOREMS = ['Fsic.C13.' + n for n in [
     'term_re_group_order', 'matchAt_consumes', 'scanGo_spans', 'scanTerms_spans', 'split_yields_checked',
     'unterminated_fence_rejected', 'format_safe', 'format_safe_arity', 'format_cannot_fail',
     'manual_field_rejected', 'empty_field_rejected', 'escaped_term_rejected', 'missing_equals_rejected',
     'straddling_term_rejected', 'no_endogenous_rejected', 'parse_error_classes', 'parseScript_error_classes',
-    'parseScript_stops_at_first_error', 'pyInt_accepts']]
+    'parseScript_stops_at_first_error', 'pyInt_accepts']] + ['Fsic.Pipeline.' + n for n in [
+    'stmts_wellIndexed', 'parseModelText_never_internal', 'parseModelText_error_classes',
+    'parseModelText_ok_symbols_wellformed']]
 RULE = ('(a) every string up to length L over the 26-character driving alphabet of the property (quick L=4, thorough '
         'L=5) plus lengths L+1..6 over six reduced alphabets chosen for regex interactions, enumerated exhaustively; '
         '(b) random C01-grammar programs (six generator configurations: verbatim fragments, named periods, LHS '
@@ -37,7 +40,7 @@ ASSUMPTIONS = ['code points <= U+00FF for the \\b / \\w decisions of the model (
                '20 s alarm per input)']
 
 META = {
-    "text": "Model M2 (term_re scanner, split_equations_iter automaton incl. the unterminated-fence error, whitespace normalisation, int(), Term.__str__/code, str.format, parse_equation in the order of the code: brace count, braces outside matched terms, parse_equation_terms with the missing-'=' check, term spanning the '=', template/format, outcome class of the symbol loop, exactly-one-endogenous check) is total by construction (structural recursion only). Proved for all inputs: matchAt_consumes, scanTerms_spans (non-empty, ordered, disjoint spans inside the text), split_yields_checked, format_safe / format_cannot_fail (once the checks of parse_equation are passed the template has exactly one automatic field per term and both str.format calls succeed), and at FULL strength, without guards, parse_error_classes / parseScript_error_classes: every failure of parse_equation / of the statement loop on the model is ParserError, IndentationError or SymbolError. The former failure witnesses ('Y = {0}', 'Y = {}', 'Y = {{X}}', a fenced block in parentheses without '=', 'Y`=`', '1 = X', 'log = log(X)', an unterminated fence) are proved to be rejected with ParserError.",
+    "text": "Model M2 (term_re scanner, split_equations_iter automaton incl. the unterminated-fence error, whitespace normalisation, int(), Term.__str__/code, str.format, parse_equation in the order of the code: brace count, braces outside matched terms, parse_equation_terms with the missing-'=' check, term spanning the '=', template/format, outcome class of the symbol loop, exactly-one-endogenous check) is total by construction (structural recursion only). Proved for all inputs: matchAt_consumes, scanTerms_spans (non-empty, ordered, disjoint spans inside the text), split_yields_checked, format_safe / format_cannot_fail (once the checks of parse_equation are passed the template has exactly one automatic field per term and both str.format calls succeed), and at FULL strength, without guards, parse_error_classes / parseScript_error_classes: every failure of parse_equation / of the statement loop on the model is ParserError, IndentationError or SymbolError. Composed with M3 (Pipeline.parseModelText = parse_model without the syntax check, tied to the code by driver kind parse_model_text): parseModelText_never_internal — for every text the result is symbols or ParserError/IndentationError/SymbolError, no hypothesis (M2's terms satisfy M3's WellIndexed guard, so TypeError/AssertionError of the symbol logic are unreachable) — and parseModelText_ok_symbols_wellformed (name iff not verbatim, lags None or <= 0, leads None or >= 0). The former failure witnesses ('Y = {0}', 'Y = {}', 'Y = {{X}}', a fenced block in parentheses without '=', 'Y`=`', '1 = X', 'log = log(X)', an unterminated fence) are proved to be rejected with ParserError.",
     "design_ref": "DESIGN.md §5 M2, §6 C13, §7 rows 8, 9, 10, 18",
     "note": "Partial: CPython compile() (the syntax check of parse_model), the `re` engine and the symbols themselves (M3) are outside the proof; the model is tied to term_re/split_equations_iter/parse_equation by exhaustive strings (L<=4 quick, L<=5 thorough over the 26-character driving alphabet, longer over reduced alphabets), grammar scripts under all layouts (strict) and mutants (lenient: only the accepted / own-error / internal-error abstraction must agree; finer drift is reported as model_drift). The oracle runs the property on the real parse_model/build_model with a canary (sentinel `self`/`CANARY` in fsic.parser globals, patched print/open): a return to exec() is a violation. Nine C13 findings are fixed in /repo (a900a8c, b0dddfe, ce6705d, 3f601b8, d65c5fa); the oracle keys stay in the code so that a revert is reported.",
     "technique": "Lean 4 proof (structural recursion, single-step lemmas, shape invariant Auto preserved by the normalisation, span invariant) + exhaustive/differential correspondence check + property oracle with canary"
